@@ -1,4 +1,5 @@
 import Np.Proofs.Text
+import Np.Proofs.TextFile
 import Np.Props.C03
 /-! C13 — pickle, copy and text save/load round-trip polynomial arrays: the logical round trips -/
 namespace Np.Props.C13
@@ -62,6 +63,38 @@ theorem rows_restored (size nterms : Nat) (h : 0 < nterms) : loadedRows size nte
 from them denotes the same polynomial (C03's constructor theorem) -/
 theorem reduce_roundtrip {S : Type} [CommSemiring S] [BEq S] [LawfulBEq S] (rn : Bool) (p : Poly S) (hw : WF p) :
     den (clean false rn p) = den p := C03.clean_den false rn p hw
+
+/-! ### the whole text file (`Np/Model/TextFile.lean`: header line, one line per array element with one number per
+stored term, numpy.loadtxt's comment cutting / splitting / squeeze, numpoly's `reshape(-1, nkeys)` and the split into
+one column per key; numpy's number formatting is the abstract codec `enc`/`dec`) -/
+
+/-- **the file round trip**: loading what `savetxt` wrote gives back the header (names, keys, shape) and every
+coefficient column — one theorem for 0-d arrays (a single line), size-1 arrays, a single stored term (one number per
+line, which numpy.loadtxt squeezes to 1-d), empty arrays and the general case; for every number codec that decodes what
+it encodes into non-empty tokens free of the delimiter and of `#` -/
+theorem file_roundtrip {α : Type} {enc : α → Str} {dec : Str → Option α} {delim : Nat}
+    (C : TextFile.Codec enc dec delim) (h : Header) (cols : List (List α)) (hn : Clean h.names) (hkeys : Clean h.keys)
+    (hu : ∀ c ∈ cols, c.length = Shape.size h.shape) (hk : cols.length = h.keys.length) (h0 : 0 < cols.length) :
+    TextFile.load dec delim (TextFile.save enc delim h cols) = some (h, cols) :=
+  TextFile.load_save C h cols (header_roundtrip h hn hkeys) hu hk h0
+
+/-- the data part has one line per array element (one line for a 0-d array) and every line one field per term -/
+theorem file_layout {α : Type} {enc : α → Str} {dec : Str → Option α} {delim : Nat} (C : TextFile.Codec enc dec delim)
+    (n : Nat) (cols : List (List α)) (h0 : cols ≠ []) (hu : ∀ c ∈ cols, c.length = n) :
+    (TextFile.saveRows enc delim cols).length = n ∧
+      ∀ l ∈ TextFile.saveRows enc delim cols, (splitSep delim l).length = cols.length :=
+  ⟨TextFile.saveRows_length enc delim n cols h0 hu, TextFile.saveRows_fields C n cols h0 hu⟩
+
+/-- the decimal codec the driver runs (`fmt="%d"` on natural numbers) meets the codec hypotheses for every delimiter
+below the digits other than `#` (blank, tab, comma) -/
+theorem decimal_codec (delim : Nat) (h1 : delim < 48) (h2 : TextFile.hash ≠ delim) :
+    TextFile.Codec digits ofDigits delim := TextFile.digitsCodec delim h1 h2
+
+/-- non-vacuity: a 0-d polynomial with two terms is one line; a single term of shape (3,) is three one-number lines -/
+example : TextFile.load ofDigits comma (TextFile.save digits comma ⟨[[113, 48]], [[59], [60]], []⟩ [[7], [12]])
+    = some (⟨[[113, 48]], [[59], [60]], []⟩, [[7], [12]]) := by decide +kernel
+example : TextFile.load ofDigits blank (TextFile.save digits blank ⟨[[113, 48]], [[60]], [3]⟩ [[1, 20, 3]])
+    = some (⟨[[113, 48]], [[60]], [3]⟩, [[1, 20, 3]]) := by decide +kernel
 
 /-- non-vacuity: names q0,q10; keys ";<", "<;"; 0-d and 2×3 shapes -/
 example : parse (format ⟨[[113, 48], [113, 49, 48]], [[59, 60], [60, 59]], []⟩)
